@@ -13,6 +13,7 @@ import (
 	"github.com/lesismal/nbio/nbhttp"
 
 	simrt "verif/sim/rt"
+	mrand "verif/sim/shim/mrand"
 )
 
 // ---------------------------------------------------------------------------------------
@@ -95,6 +96,7 @@ type env struct {
 
 func newEnv(movingBody bool) *env {
 	e := &env{Pool: NewTracker("mempool.DefaultMemPool", false), Body: NewTracker("BodyAllocator", movingBody)}
+	mrand.ResetFallback(1)
 	e.old = mempool.DefaultMemPool
 	mempool.DefaultMemPool = e.Pool
 	logging.SetLogger(capLogger{&e.Logs})
